@@ -1,12 +1,17 @@
 (* Props/C16.v — property theorems only (C16 Brace expansion matches bash).
    Model: Expand/Braces.v (SplitBraces, printer rendering, bracesSeqRec/BracesSeq after the fix: commits
    recorded in known_findings.jsonl; Spec = bash's brace_expand). A word is one literal, w : str. *)
-From Verif Require Import Base.Str Expand.Braces Proofs.BracesProofs.
+From Verif Require Import Base.Str Expand.Braces Proofs.BracesProofs Proofs.BracesPrintProofs.
 
 (* 1. splitting braces leaves the word's printed form unchanged *)
 Theorem C16_split_preserves_text : forall w, render (snd (split_braces w)) = render [PLit w].
 Proof. exact split_preserves_text'. Qed.
 Print Assumptions C16_split_preserves_text.
+
+(* ... also with the Printer's rule for literals (an odd number of trailing backslashes gets one more) *)
+Theorem C16_split_preserves_print : forall w, print (snd (split_braces w)) = print [PLit w].
+Proof. exact split_preserves_print. Qed.
+Print Assumptions C16_split_preserves_print.
 
 (* 2. ... and reports whether it found a brace expansion.
    (On the pinned tree this was refuted by w = "a{b": flag true, no BraceExp; repaired by fix 6c22f31,
